@@ -42,7 +42,7 @@ func loadRule(t *rapid.T, T float64, ivMs, qMs int) {
 }
 
 func TestSequential(t *testing.T) {
-	hx.Check(t, hx.N{Quick: 8000, Thorough: 40000}, func(t *rapid.T, c *hx.Case) {
+	hx.Check(t, hx.N{Quick: 40000, Thorough: 400000}, func(t *rapid.T, c *hx.Case) {
 		hx.Reset(hx.Epoch + uint64(rapid.IntRange(0, 999).Draw(t, "t0")))
 		T := rapid.SampledFrom(thresholds).Draw(t, "T")
 		iv := rapid.SampledFrom(intervals).Draw(t, "I")
@@ -150,7 +150,7 @@ type call struct {
 }
 
 func TestConcurrentCallers(t *testing.T) {
-	hx.Check(t, hx.N{Quick: 4000, Thorough: 30000}, func(t *rapid.T, c *hx.Case) {
+	hx.Check(t, hx.N{Quick: 20000, Thorough: 300000}, func(t *rapid.T, c *hx.Case) {
 		hx.Reset(hx.Epoch)
 		s := sched.New("tc.")
 		defer s.Close()
